@@ -4,6 +4,7 @@ C19 — driver: replays an implementation trace through the model (correspondenc
 cfg:  n=<instances> keys=<distinct keys>      instance i uses key "k{i % keys}", model id "id{i}"
 ops:  ft <ms> | acquire <i> | release <i> | setexpire <i> <seconds> | ids
       race <i> <j> …      concurrent Acquire calls of distinct instances (real goroutines)
+      scriptflush         Redis drops its script cache (next script run: EVALSHA→NOSCRIPT, then EVAL)
       down | up           miniredis answers every command with an error / normally again
       inj <p> <acquire i|release i> [ <op> ; <op> … ]
                           the bracketed operations were executed immediately before the p-th Redis command of
@@ -46,6 +47,7 @@ inductive DOp where
   | ids
   | down
   | up
+  | scriptflush
   | inj (p : Nat) (outer : Op) (inner : List Op)
   | lost (outer : Op)
   deriving Repr
@@ -86,6 +88,7 @@ def parseOp (n : Nat) : List String → Option DOp
   | ["setexpire", i, s] => do pure (.op (.setExpire (← parseInst n i) (← s.toInt?)))
   | ["ids"] => some .ids
   | ["down"] => some .down
+  | ["scriptflush"] => some .scriptflush
   | ["up"] => some .up
   | "race" :: js => do
     let js ← js.mapM (parseInst n)
@@ -547,6 +550,12 @@ def runSection (r : Report) (s : Section) : Report := Id.run do
       r := r.addCover "up"
       d := { d with down := false }
       if impl ≠ "ok" then r := r.mismatch s.idx l.idx "ok" impl
+    | some .scriptflush =>
+      -- no effect on the lock; whether the next script run needs two round trips is observed (`cmds=`)
+      r := { r with ops := r.ops + 1 }
+      r := r.addCover "scriptflush"
+      let want := if d.down then "err" else "ok"
+      if impl ≠ want then r := r.mismatch s.idx l.idx want impl
     | some (.inj p outer inner) =>
       r := { r with ops := r.ops + 1 + inner.length }
       let (r', d') := checkInj c r d p outer inner l.obs
